@@ -178,6 +178,9 @@ func (dist *BinomialDistribution) ImportConfig(config ConfigDistribution, t Scal
   if parameters, ok := config.GetParametersAsFloats(); !ok {
     return fmt.Errorf("invalid config file")
   } else {
+    if len(parameters) != 2 {
+      return fmt.Errorf("invalid config file")
+    }
     theta := NewScalar(t, parameters[0])
     n     := int(parameters[1])
 
